@@ -89,6 +89,20 @@ func (c *Contract) Key() string {
 	return c.Pkg + ".(" + c.Recv + ")." + c.Name
 }
 
+// AllClauses lists every expression clause of the contract (for syntactic scans).
+func (c *Contract) AllClauses() []*Clause {
+	var out []*Clause
+	out = append(out, c.Requires...)
+	out = append(out, c.Ensures...)
+	for _, ca := range c.CallAsserts {
+		out = append(out, ca.Clause)
+	}
+	for _, ls := range c.Loops {
+		out = append(out, ls.Invariants...)
+	}
+	return out
+}
+
 func (c *Contract) HasProp(p string) bool {
 	for _, x := range c.Props {
 		if x == p {
